@@ -143,6 +143,28 @@ static void check(const std::string &s, Buf<C> &b, vx::Ctx &ctx, const char *fam
         ctx.fail(key, "offset moved past the end");
         return;
     }
+    if (t != QNumberType::NotANumber && off == s.size()) {
+        // the same numeral through the overload without an offset, and behind two other units with the offset set to its start
+        // (how the JSON and expression parsers call it): same kind, same bits, consumed to the end
+        QNumber64         n2;
+        const QNumberType t2 = Digit::StringToNumber(n2, p, SizeT(s.size()));
+        ctx.acc.count("evals");
+        if (t2 != t || (n2.Natural != num.Natural && !(t == QNumberType::Real && num.Real != num.Real && n2.Real != n2.Real))) {
+            snprintf(msg, sizeof msg, "StringToNumber(number, content, length) gives type %d bits %016llx, the overload with an offset type %d bits %016llx", (int)t2,
+                     (unsigned long long)n2.Natural, (int)t, (unsigned long long)num.Natural);
+            ctx.fail(key, msg);
+        }
+        const C          *q = b.put("[ " + s);
+        QNumber64         n3;
+        SizeT             off3 = 2;
+        const QNumberType t3   = Digit::StringToNumber(n3, q, off3, SizeT(s.size() + 2));
+        ctx.acc.count("evals");
+        if (t3 != t || off3 != SizeT(s.size() + 2) || (n3.Natural != num.Natural && !(t == QNumberType::Real && num.Real != num.Real && n3.Real != n3.Real))) {
+            snprintf(msg, sizeof msg, "read from offset 2 of '[ %s' gives type %d bits %016llx offset %u, read alone type %d bits %016llx", s.c_str(), (int)t3,
+                     (unsigned long long)n3.Natural, (unsigned)off3, (int)t, (unsigned long long)num.Natural);
+            ctx.fail(key, msg);
+        }
+    }
     if (!c.grammar) {
         if (c.leading_zero || c.lone_dot || c.repeated_dot || c.empty_exp) {
             if (t != QNumberType::NotANumber && off == s.size()) {
